@@ -9,7 +9,6 @@ From V Require Import Base.Int Base.IntLemmas Base.IO Base.Utf8 Gen.TextForms Mo
 From V Require Model.Date Model.Time Judge.C09 Proofs.Date Proofs.C08.
 Import ListNotations.
 Open Scope Z_scope.
-Set Default Timeout 300.
 Ltac Zify.zify_post_hook ::= Z.to_euclidean_division_equations.
 Import Proofs.Date.
 
